@@ -67,12 +67,14 @@ CkValueSpell(text, K) == SpellCase(text, K)
                          \cup (IF K >= 1 THEN UNION {{<<x[1], x[2] + 1>> : x \in SpellCase(sw, K - 1)} : sw \in SwapTwo(text)} ELSE {})
 SpellPair(pr, cx, K) == CatK(CatK(SpellCase(ALowerS(pr[1]), K), Lit(<<EQ>>), K),
                              IF ALowerS(pr[1]) = CHECKSUM THEN CkValueSpell(pr[2], K) ELSE SpellStr(pr[2], "qv", cx, K), K)
-FRESH == <<122, 122, 57>>                                 \* "zz9"
+\* fresh keys "zz0" .. "zz9": every interleaved empty-valued qualifier has a key of its own - a key that occurs twice,
+\* even with empty values only, is outside what the properties fix (DESIGN.md 4)
+Fresh(n) == <<122, 122, 48 + n>>
 RECURSIVE SpellPairs(_, _, _)
 SpellPairs(ps, cx, K) ==
   IF ps = <<>> THEN Lit(<<>>)
-  ELSE LET empty == {<<<<>>, 0>>, <<FRESH \o <<EQ, AMP>>, 1>>}
-           sep == IF Len(ps) > 1 THEN Lit(<<AMP>>) ELSE {<<<<>>, 0>>, <<<<AMP>> \o FRESH \o <<EQ>>, 1>>}
+  ELSE LET empty == {<<<<>>, 0>>, <<Fresh(Len(ps)) \o <<EQ, AMP>>, 1>>}
+           sep == IF Len(ps) > 1 THEN Lit(<<AMP>>) ELSE {<<<<>>, 0>>, <<<<AMP>> \o Fresh(0) \o <<EQ>>, 1>>}
        IN CatK(CatK(CatK(empty, SpellPair(ps[1], cx, K), K), sep, K), SpellPairs(Tail(ps), cx, K), K)
 \* orders of the pairs: sorted order has cost 0, any other order cost 1
 SortedPairs(ps) == LET ks == SortStrs({ALowerS(ps[i][1]) : i \in 1..Len(ps)})
